@@ -62,6 +62,15 @@ def gen_cases(seed, tier):
             cases.append({"spec": sp, "rows": gen_geo.param_rows(rng, kk_), "k": kk_, "seed": int(rng.integers(0, 2 ** 31)),
                           "info": {"kind": "prim", "dim": 2, "dep": False, "relations": ["hole"], "desc": "Gh"}})
             continue
+        if len(cases) % 40 == 23:
+            # a large polygon (coordinates of a few hundred units), constant: every seed reaches it
+            ctx = gen_geo.Ctx(rng, False, 0, None, 2)
+            sp = geo.scale_spec(gen_geo.prim2d(ctx, rng.uniform(-2, 2, 2), float(rng.uniform(0.5, 1.5)), kinds=("polygon",)),
+                                float(rng.choice([30.0, 300.0, 300.0])))
+            kk_ = int(rng.choice([0, 0, 2]))
+            cases.append({"spec": sp, "rows": gen_geo.param_rows(rng, kk_), "k": kk_, "seed": int(rng.integers(0, 2 ** 31)),
+                          "info": {"kind": "prim", "dim": 2, "dep": False, "relations": ["large"], "desc": "G", "scale": 300.0}})
+            continue
         if len(cases) % 20 == 11:
             # rectangles with collinear edges (corners of one operand on edges of the other): grid samples on both boundaries
             for _ in range(400):
